@@ -165,21 +165,33 @@ def mklit(rng, kind, text):
             "root": None, "comps": []}
 
 
+# "themed" invokes concentrate kernels of one family and arguments that differ only in their index
+THEME_POOLS = {"qr": [[("qrs", "1")], [("qrs", "2")], [("qr", None)], [("obj", None), ("qr", None)]],
+               "extent": [[("exts", "1")], [("exts", "2")], [("exts", "i")], [("ext", None)], [("obj", None), ("exts", "2")]],
+               "direction": [[("dirs", "1")], [("dirs", "2")], [("dir", None)]]}
+THEME_KERNELS = {"qr": ["testkern_qr_type"],
+                 "stencil": ["testkern_stencil_type", "testkern_stencil_xory1d_type", "testkern_stencil_multi_type"]}
+
+
 class Gen:
-    def __init__(self, rng, builtins_only=False, adversarial=0.15):
+    def __init__(self, rng, builtins_only=False, adversarial=0.15, field_pool=None):
         self.rng = rng
+        self.field_pool = field_pool or FIELD_POOL
         self.builtins_only = builtins_only
         self.adv = adversarial
         self.labels = set()
+        self.theme = None
 
     # ---- argument choice; `used` = canon texts already in this kernel call (PSyclone refuses repeats)
     def pick(self, kind, used, inv_pool, allow_lit=True):
         rng = self.rng
-        pool, lits = {"field": (FIELD_POOL, []), "real": (REAL_POOL, REAL_LITS), "int": (INT_POOL, INT_LITS),
+        pool, lits = {"field": (self.field_pool, []), "real": (REAL_POOL, REAL_LITS), "int": (INT_POOL, INT_LITS),
                       "extent": (EXT_POOL, EXT_LITS), "direction": (DIR_POOL, DIR_CONST),
                       "qr": (QR_POOL, [])}[kind]
         if kind == "field" and rng.random() > self.adv:
             pool = pool[:-5]                     # names that collide with PSy-layer internals: rarely
+        if self.theme and kind in THEME_POOLS and rng.random() < 0.8:
+            pool, lits = THEME_POOLS[kind], []
         for _ in range(200):
             if lits and allow_lit and rng.random() < 0.25:
                 a = mklit(rng, kind, rng.choice(lits))
@@ -201,7 +213,11 @@ class Gen:
 
     def kernel(self, inv_pool):
         rng = self.rng
-        if self.builtins_only or rng.random() < 0.45:
+        if self.theme and not self.builtins_only and rng.random() < 0.75:
+            kname = rng.choice(THEME_KERNELS[self.theme])
+            kinds = USER_KERNELS[kname][2]
+            builtin = False
+        elif self.builtins_only or rng.random() < 0.45:
             kname = rng.choice(sorted(BUILTINS))
             kinds = BUILTINS[kname][0]
             builtin = True
@@ -239,6 +255,9 @@ class Gen:
     def invoke(self, nk=None):
         rng = self.rng
         nk = nk or rng.choice([1, 1, 2, 2, 3, 4])
+        self.theme = None if self.builtins_only else rng.choice([None, None, None, "qr", "stencil"])
+        if self.theme:
+            nk = max(nk, 2)
         pool = []
         kernels = [self.kernel(pool) for _ in range(nk)]
         label = None
